@@ -55,11 +55,11 @@ var numAllow = map[string][]numAllowed{
 		{"MonetaryInt.Uint64", 3, "portion/argument counts the compiler emits (OP_MAKE_ALLOTMENT, OP_FUNDING_ASSEMBLE), never amounts"},
 		{"big.Int.Uint64", 1, "OP_BUMP stack offset the compiler emits, never an amount"},
 	},
-	"internal/queries.jsonToString":                             {{"float-to-int64", 1, "substitution into string-typed fields (addresses, metadata) only; request variables arrive as json.Number (NUM/decode-any on RunQuery)"}},
-	"internal/queries.resolveValue":                             {{"big.Float", 2, "fallback for float64 values supplied programmatically, exactness-checked with big.Exact; request variables arrive as json.Number (NUM/decode-any on RunQuery.UnmarshalJSON) and take the SetString path"}},
-	"internal/queries.validateValueType":                        {{"big.Float", 2, "validation of a declared default only (IsInt test); defaults are decoded with UseNumber"}},
-	"internal/machine.(MonetaryInt).Uint64":                     {{"big.Int.Uint64", 1, "the accessor itself; each of its call sites is an obligation"}},
-	"internal/storage/common.convertPaginationIDToSQLType":      {{"big.Int.Int64", 1, "TypeDate arm: the pagination id is a timestamp in microseconds, not an amount"}},
+	"internal/queries.jsonToString":                        {{"float-to-int64", 1, "substitution into string-typed fields (addresses, metadata) only; request variables arrive as json.Number (NUM/decode-any on RunQuery)"}},
+	"internal/queries.resolveValue":                        {{"big.Float", 2, "fallback for float64 values supplied programmatically, exactness-checked with big.Exact; request variables arrive as json.Number (NUM/decode-any on RunQuery.UnmarshalJSON) and take the SetString path"}},
+	"internal/queries.validateValueType":                   {{"big.Float", 2, "validation of a declared default only (IsInt test); defaults are decoded with UseNumber"}},
+	"internal/machine.(MonetaryInt).Uint64":                {{"big.Int.Uint64", 1, "the accessor itself; each of its call sites is an obligation"}},
+	"internal/storage/common.convertPaginationIDToSQLType": {{"big.Int.Int64", 1, "TypeDate arm: the pagination id is a timestamp in microseconds, not an amount"}},
 }
 
 func checkC36(c *core.Ctx) {
@@ -70,6 +70,7 @@ func checkC36(c *core.Ctx) {
 	ruleDecodeAnyUsesNumber(c)
 	ruleDecodeSites(c)
 	ruleSQLAmountTypes(c)
+	ruleSQLFunctionNumericTypes(c)
 }
 
 func isFloat(t types.Type) bool {
@@ -208,7 +209,7 @@ var decodeAnyAllow = map[string]string{
 	"internal.(ChartSegment).UnmarshalJSON":    "chart of accounts segment; no amounts",
 	"internal.(SavedMetadata).UnmarshalJSON":   "targetId of an account target is an address string; transaction ids are parsed with ParseUint",
 	"internal.(DeletedMetadata).UnmarshalJSON": "targetId of an account target is an address string; transaction ids are parsed with ParseUint",
-	"internal.checkForExtraFields":              "only the key set of the decoded object is inspected",
+	"internal.checkForExtraFields":             "only the key set of the decoded object is inspected",
 }
 
 // containsAny reports a path to an empty-interface slot reachable by the default JSON decoder
@@ -539,7 +540,10 @@ func ruleSQLAmountTypes(c *core.Ctx) {
 		c.Check(ok, "NUM/bun-tags", ft.typ+"."+ft.field, "", "type:numeric", fmt.Sprintf("%s.%s is mapped with bun type %q, expected numeric", ft.typ, ft.field, got))
 	}
 	// amount-carrying Go fields are *big.Int (or big-int wrappers), never machine integers
-	for _, ft := range []struct{ rel, typ string; fields []string }{{pkgCore, "Posting", []string{"Amount"}}, {pkgCore, "Volumes", []string{"Input", "Output"}}, {pkgCore, "AccountsVolumes", []string{"Input", "Output"}}} {
+	for _, ft := range []struct {
+		rel, typ string
+		fields   []string
+	}{{pkgCore, "Posting", []string{"Amount"}}, {pkgCore, "Volumes", []string{"Input", "Output"}}, {pkgCore, "AccountsVolumes", []string{"Input", "Output"}}} {
 		nt := namedType(c, ft.rel, ft.typ)
 		if nt == nil {
 			c.Unknown("NUM/go-types", ft.typ, "", "type not found")
